@@ -29,12 +29,13 @@ _QS_RESOURCES = 'resources'
 _QS_REQUIRED = 'required'
 _QS_MEMBER_OF = 'member_of'
 _QS_IN_TREE = 'in_tree'
+# NOTE: \Z, not $: "$" also matches before a trailing newline.
 _QS_KEY_PATTERN = re.compile(
-    r"^(%s)(%s)?$" % ('|'.join(
+    r"^(%s)(%s)?\Z" % ('|'.join(
         (_QS_RESOURCES, _QS_REQUIRED, _QS_MEMBER_OF, _QS_IN_TREE)),
         common.GROUP_PAT))
 _QS_KEY_PATTERN_1_33 = re.compile(
-    r"^(%s)(%s)?$" % ('|'.join(
+    r"^(%s)(%s)?\Z" % ('|'.join(
         (_QS_RESOURCES, _QS_REQUIRED, _QS_MEMBER_OF, _QS_IN_TREE)),
         common.GROUP_PAT_1_33))
 
